@@ -48,6 +48,7 @@ KNOWN = [
 
 # subject prefix (after 'fix: ') -> (properties, rule, what failed)
 FIXED = [
+    ("'beyond X by Y from Z' never used the orientation of Z", ["C07"], "C07.coerce", "`beyond X by Y [from Z]` always specified the global orientation as parentOrientation: Z was coerced to a plain vector before `isA(fromPt, OrientedPoint)`, contradicting the reference (F52; noticed by an independent agent while seeding changes)"),
     ("sub-scenarios of a previous simulation were still consulted at the start of the next one", ["C14"], "C14.runstate", "re-running a scenario whose compose block invokes a sub-scenario later than step 0 gave an extra record entry at step 0: the previous run's stopped sub-scenarios were still in _subScenarios (F51; found by the run-state inventory written for a seeded change)"),
     ("'terminate when' / 'terminate simulation when' / 'record' in the setup of a sub-scenario were treated as requirements", ["C12"], "C12.kinds", "`terminate when X` (or `record`) in the setup block of a dynamically invoked sub-scenario was filed as a temporal requirement and rejected the simulation while X was false (F50; noticed by an independent agent while seeding changes; an upstream test passed only because of the bug)"),
     ("break/continue/return in nested try-interrupt statements conclude the enclosing block", ["C13"], "C13.flags", "in a try-interrupt nested in a block of another one, `break` gave \"'break' outside loop\", `return` only left the outer block, and a `continue` was dropped when a later handler contained a nested statement (F49; found by an independent agent while seeding changes)"),
